@@ -231,7 +231,7 @@ func (c *Cluster) startNode(i int, currentPeers []*peers.Peer, bootstrap bool, f
 		if old := c.Nodes[i]; old != nil {
 			sn.KeepDir = old.KeepDir
 		}
-		bs, err := hg.NewBadgerStore(conf.CacheSize, sn.Dir, false, nil)
+		bs, err := hg.NewBadgerStore(conf.CacheSize, sn.Dir, false, conf.Logger())
 		if err != nil {
 			panic(fmt.Sprintf("harness: cannot open badger store: %v", err))
 		}
@@ -486,6 +486,7 @@ func (c *Cluster) guard(name string, f func() error) (err error) {
 		return err
 	}
 	c.depth = 1
+	SetNow(c.now) // several clusters may be alive in one process (twins): the clock seam follows the stepping one
 	c.Step++
 	c.Trace = append(c.Trace, name)
 	defer func() {
